@@ -19,6 +19,33 @@ func init() {
 
 var rewrittenFields = map[string]bool{"TTL": true, "HopLimit": true, "Checksum": true, "TOS": true, "TrafficClass": true, "Options": true, "Padding": true}
 
+// checkQuoteIdentifier is R01.11: the per-probe identifier the parser takes from a quoted header is that header's own field
+// (IPv4 Id, IPv6 Length of a UDP probe) or zero - never a property of how much was quoted (len of the decoded payload): a router that
+// quotes fewer bytes than the probe had would otherwise turn the quote's size into the identifier and credit another probe.
+func checkQuoteIdentifier(c *Ctx) {
+	R := c.R
+	n := 0
+	for _, g := range icmpInfoBuilders(c) {
+		rps, _ := core.ReturnPaths(c.P, g, 2000)
+		for _, rp := range rps {
+			r0 := rp.Results[0]
+			if r0.Op != "struct" {
+				continue
+			}
+			for _, kv := range r0.Args {
+				if kv.Name != "WrappedPacketID" || len(kv.Args) != 1 {
+					continue
+				}
+				n++
+				v := kv.Args[0].StripConv()
+				ok := v.Op == "zero" || v.IsConst("0") || v.Op == "field" && (v.Name == "Id" || v.Name == "Length") && quoteLocal(v.Args[0])
+				R.Check(ok, "R01.11", core.FuncName(g)+"#quote-identifier", rp.Ret.Pos(), core.FuncName(g), "WrappedPacketID is a field of the quoted header (or 0)", "the per-probe identifier taken from the quote is "+kv.Args[0].String()+", not the quoted header's Id / Length field: it then depends on how many bytes the router quoted, so a short quote is credited to another probe of the run")
+			}
+		}
+	}
+	R.Floor("R01.11:quote-identifiers", n, 2)
+}
+
 // checkFixedFrameOffsets is R02.9: on the inbound parse path of package packets no byte slice is read at a constant offset of 20
 // or more. Everything past the first 20 bytes of a frame sits behind a variable-length header (IPv4 IHL / options, IPv6 extension
 // headers, TCP options): a fixed offset reads the right byte only for the shortest header, so a genuine reply that carries outer
@@ -71,6 +98,9 @@ func checkFixedFrameOffsets(c *Ctx) {
 func runC02(c *Ctx) {
 	R := c.R
 	checkFixedFrameOffsets(c)
+	// an expired poll deadline must be recognised however the handle wraps it, or a quiet interval ends the run and the replies
+	// still to come are never read (shared with C09 R09.1)
+	checkSentinelIdentity(c)
 	denied := deniedICMPInfoFields(c)
 	forEachMatcher(c, "R02", func(m *matcherCtx) {
 		forms := map[string]bool{}
